@@ -13,7 +13,10 @@ MUTS = [
     ("str_to_man_exp", "parts[1].rstrip('0')", "parts[1]", "no stripping of fractional zeros"),
     ("to_digits_exp", "int(dps * math.log(10,2)) + 10", "int(dps * math.log(10,2)) + 9", "bitprec guard"),
     ("to_digits_exp", "if abs(exp_from_1) > 3500", "if abs(exp_from_1) > 3499", "big-exponent switch"),
-    ("repr_dps", "if dps == 15:", "if dps == 16:", "repr_dps special case"),
+    ("repr_dps", "if dps == 15 and", "if dps == 16 and", "repr_dps special case"),
+    ("repr_dps", " and n <= 53", "", "repr_dps 54-bit guard removed (pre-c03e100 code)"),
+    ("str_to_man_exp", "x = x.replace('_', '')", "pass", "separators not removed (pre-ad5f351 code)"),
+    ("str_to_man_exp", "if x in ('', '+', '-'):", "if x in ('',):", "signed '.0' not padded"),
     ("prec_to_dps", "3.3219280948873626", "3.3219280948873", "constant truncated"),
 ]
 for fn, old, new, what in MUTS:
@@ -23,8 +26,10 @@ for fn, old, new, what in MUTS:
     ns = L.__dict__
     exec(compile(src.replace(old, new), "<mut>", "exec"), ns)
     try:
-        if fn in ("from_str", "str_to_man_exp"):
-            st, dis, g = S.run_t1(["from_str", "str_to_man_exp"], 30000, 3)
+        if fn == "from_str":
+            st, dis, g = S.run_t1(["from_str"], 60000, 3)
+        elif fn in ("from_str", "str_to_man_exp"):
+            st, dis, g = S.run_t1(["from_str", "str_to_man_exp", "mpi_from_str"], 30000, 3)
         else:
             st, dis, g = S.run_t1(S.ALL_STR_OPS, 14000, 3)
         ops = sorted({d["op"] for d in dis})
